@@ -1,6 +1,6 @@
 //go:build verif
 
-//verif:bounds information block of T tags (quick 2, thorough 3) plus the end tag; tag types, sizes (8..40 bytes) and all payload bytes symbolic; block capacity 256 bytes with a symbolic accessible limit equal to the block's own end (any read beyond it is a violation)
+//verif:bounds information block of T tags (quick 2, thorough 3) plus the end tag; tag types, sizes (8..40 bytes) and all payload bytes symbolic; block capacity 256 bytes with a symbolic accessible limit equal to the block's own end (any read beyond it is a violation); huge_tag: a sparse block of a little over 2 GiB whose first tag has size 0x7ffffff0 / 0x7ffffff9 / 0x80000000
 //verif:assumes well-formed block: each tag size >= 8, next tag at the 8-aligned offset, end tag (type 0, size 8) last; A-ADDR: block at the 8-aligned constant address 0x20000000
 package multiboot
 
@@ -385,4 +385,35 @@ func Verif_C10_cmdline() {
 	infoData = 0 // a second scan of the block would now dereference a null-based address
 	again := GetBootCmdLine()
 	zzverif.Assert(len(again) == len(got), "second call returns the memoised result without touching the block")
+}
+
+// A tag of about 2 GiB (sizes on both sides of 2^31) in front of the memory-map tag: the walk must advance by the
+// tag's size rounded up to 8 and find the tag that follows; the block is a sparse raw region of a little over 2 GiB.
+func Verif_C10_huge_tag() {
+	huge := [3]uintptr{0x7ffffff0, 0x7ffffff9, 0x80000000}[zzverif.Choice("hugesize", 3)]
+	adv := (huge + 7) &^ 7
+	total := 8 + adv + 16 + 8
+	buf := zzverif.Region("mbhuge", vfBase, total, 1)
+	base := uintptr(unsafe.Pointer(&buf[0]))
+	put := func(off uintptr, v uint32) { *(*uint32)(unsafe.Pointer(base + off)) = v }
+	put(0, uint32(total))
+	put(4, 0)
+	put(8, 21) // a tag type the kernel does not know
+	put(12, uint32(huge))
+	put(8+adv, 6) // memory map: entry size 24, version 0, no entries
+	put(8+adv+4, 16)
+	put(8+adv+8, 24)
+	put(8+adv+12, 0)
+	put(8+adv+16, 0) // end tag
+	put(8+adv+20, 8)
+	infoData = base
+	var ptr uintptr
+	var size uint32
+	panicked := zzverif.Catch(func() { ptr, size = findTagByType(tagType(6)) })
+	zzverif.Assert(!panicked, "the tag walk stays inside the block")
+	if panicked {
+		return
+	}
+	zzverif.Assert(zzverif.And(ptr == base+8+adv+8, size == 8), "a tag behind a very large tag is found at its place")
+	zzverif.Reach("found")
 }
